@@ -22,6 +22,7 @@ func init() {
 	ops["udp"] = opUDP
 	ops["updown"] = opUpDown
 	ops["drain"] = opDrain
+	ops["startbusy"] = opStartBusy
 }
 
 // self-describing datagram: id(4) len(4) crc32(4) payload
@@ -478,4 +479,69 @@ func opDrain(st *state, args []string) []string {
 	u.mu.Unlock()
 	fmt.Fprintf(os.Stderr, "drain stats: sent=%d reads=%d decoded=%d\n", k, reads, dec)
 	return []string{fmt.Sprintf("res ok stop=%s undecoded=%d", stopRes, int(reads)-dec)}
+}
+
+
+// startbusy <sockets> <workers> <queue> <blocking>: Start on a port that another socket (without SO_REUSEPORT) holds must
+// return an error — not hang, not leave the receiver half started —, and the same receiver must start on a free port
+// afterwards, decode traffic there and stop.
+func opStartBusy(st *state, args []string) []string {
+	if len(args) != 4 {
+		return []string{"bad-op"}
+	}
+	sockets, _ := strconv.Atoi(args[0])
+	workers, _ := strconv.Atoi(args[1])
+	queue, _ := strconv.Atoi(args[2])
+	blocking := args[3] == "1"
+	u := &udpRun{decoded: map[uint32]int{}, gate: make(chan struct{}), cb: &dropCB{dropped: map[uint32]int{}}}
+	r, err := utils.NewUDPReceiver(&utils.UDPReceiverConfig{Sockets: sockets, Workers: workers, QueueSize: queue, Blocking: blocking, ReceiverCallback: u.cb})
+	if err != nil {
+		return []string{resErr(err)}
+	}
+	holder, err := net.ListenUDP("udp", &net.UDPAddr{IP: net.ParseIP("127.0.0.1"), Port: 0})
+	if err != nil {
+		return []string{"bad-op"}
+	}
+	busy := holder.LocalAddr().(*net.UDPAddr).Port
+	call := func(f func() error) (string, bool) {
+		done := make(chan error, 1)
+		go func() { done <- f() }()
+		select {
+		case e := <-done:
+			if e != nil {
+				return "err", true
+			}
+			return "ok", true
+		case <-time.After(4 * time.Second):
+			return "timeout", false
+		}
+	}
+	r1, fin := call(func() error { return r.Start("127.0.0.1", busy, u.decoder("instant")) })
+	holder.Close()
+	if !fin {
+		return []string{"res timeout"}
+	}
+	port := freeUDPPort()
+	r2, fin := call(func() error { return r.Start("127.0.0.1", port, u.decoder("instant")) })
+	if !fin {
+		return []string{"res timeout"}
+	}
+	alive := "no"
+	if r2 == "ok" {
+		ids := []uint32{1, 2, 3, 4, 5, 6, 7, 8}
+		sendBurst(port, ids, 1, 200*time.Microsecond)
+		for k := 0; k < 100 && alive == "no"; k++ {
+			time.Sleep(5 * time.Millisecond)
+			u.mu.Lock()
+			if len(u.decoded) > 0 {
+				alive = "yes"
+			}
+			u.mu.Unlock()
+		}
+	}
+	r3, fin := call(r.Stop)
+	if !fin {
+		return []string{"res timeout"}
+	}
+	return []string{fmt.Sprintf("res ok busy=%s later=%s alive=%s stop=%s", r1, r2, alive, r3)}
 }
